@@ -4,6 +4,14 @@ import json, sys
 
 TRUST = "Trusted: the reference components refcbor/refcose/refiana (small, independent of coset and ciborium, cross-checked at setup), rustc/std, derived Debug of coset types as the observation of decoded values. Exhaustive only within the stated bounds (see evidence coverage.bounds and DESIGN.md section 8)."
 CHECKS = {
+ "C02": dict(section="4.2", technique="exhaustive enumeration of header contents x encodings within a deviation bound x byte-string wrappers x carrier positions; retention, re-encoding and crypto-structure slots checked on the real crate",
+   text="Every encoding within 1 (quick) / 2 (thorough) deviations of 18 header contents, plus the three empty forms, carried definite / wide-head / chunked at 17 protected carrier positions: original_data and parsed view equal the reference at every nesting level, the re-encoding carries exactly the wire bytes, and every to-be-signed / MAC / AEAD structure obtainable from the decoded value carries them in its protected slot(s)."),
+ "C03": dict(section="4.3", technique="exhaustive product of contexts x protected-header forms x signer forms x bstr length classes x payload placement over every API route; byte equality with an independent deterministic encoder",
+   text="All tuples (3 contexts x 8 body forms x {absent, 8 signer forms} x AAD/payload length classes 0..65536 x embedded/detached/absent x 1..3 signers at every index) through sig_structure_data, tbs_data, tbs_detached_data and the closure argument of every create/add/try/verify variant; documented panics iff documented; injectivity table."),
+ "C04": dict(section="4.4", technique="exhaustive product {MAC, MAC0} x protected forms x bstr length classes x payload presence over every API route; byte equality with an independent deterministic encoder",
+   text="All tuples through mac_structure_data, create_tag, try_create_tag and verify_tag on built and decoded messages; MAC/MAC0 separation; no-payload refusal without calling the closure."),
+ "C05": dict(section="4.5", technique="exhaustive product of five contexts x protected forms x AAD length classes x ciphertext presence over every carrier and API route; byte equality with an independent deterministic encoder",
+   text="All tuples through enc_structure_data, create_ciphertext / try_create_ciphertext / decrypt of Encrypt, Encrypt0 and recipients (top-level and nested) with each recipient context; non-recipient context and missing ciphertext refused; no two contexts collide; plaintext/ciphertext passed through."),
  "C07": dict(section="4.7", technique="exhaustive bounded enumeration of structured inputs (explicit-state tree search); one-step fixed-point oracle on the real encoder/decoder",
    text="Every input of the structured spaces of C08/C09/C10/C12/C14/C15/C18 plus dedicated non-canonical families (all encodings within 2 deviations incl. bignum and indefinite forms) is decoded; for each accepted one: re-encode, re-decode, compare value (incl. retained protected bytes) and second encoding, tagged forms too."),
  "C08": dict(section="4.8", technique="exhaustive enumeration of bounded header maps (explicit-state tree search) with differential check against an independent reference decoder",
